@@ -61,7 +61,9 @@ def gen_doc(rng, key, maxlen=6, sparse=0.15, boosts=False, burst=0.0, boolean=Fa
         d["d"] = EPOCH + datetime.timedelta(days=rng.randint(0, 9), microseconds=USECS[rng.randrange(len(USECS))])
     if boosts and rng.random() < 0.3:
         # 0.3 / 1.1: products that float32 cannot represent (the stored weight is rounded, sometimes upwards)
-        d["_boost"] = rng.choice([0.5, 2.0, 3.0, 0.3, 1.1])
+        # (only where the caller asks for it: monitors that compare with a double-precision reference keep to exact boosts,
+        # float32 rounding of the stored statistics is amplified by DFree / PL2 beyond any fixed tolerance otherwise)
+        d["_boost"] = rng.choice([0.5, 2.0, 3.0, 0.3, 1.1] if boosts == "fractional" else [0.5, 2.0, 3.0])
     if boolean and rng.random() < 0.6:
         d["b"] = rng.random() < 0.5
     return d
